@@ -145,6 +145,21 @@ def run(ctx):
                   f"__eq__ returns `{norm(rt.value) if rt.value is not None else None}` under {shown} without comparing the packed projections: records with the same descriptor "
                   "(name and fields) and equal values can compare unequal (e.g. a rebuilt copy whose descriptor object is a different instance) while their hashes are equal", rt,
                   "returns either the non-Record refusal or the comparison of both projections", key="R12.2:Record.__eq__:decided-outside-projection")
+    # helpers on the hash path (the normaliser) must not re-pack nested records with other arguments than __eq__ uses
+    seen_h, work_h = set(), [hs]
+    while work_h:
+        f0 = work_h.pop()
+        if id(f0) in seen_h:
+            continue
+        seen_h.add(id(f0))
+        for c in calls_in(f0):
+            r0 = prog.resolve_expr(f0._module, c.func) if isinstance(c.func, ast.Name) else None
+            if isinstance(r0, DefRef) and isinstance(r0.node, ast.FunctionDef) and r0.node._module is f0._module:
+                work_h.append(r0.node)
+            if isinstance(c.func, ast.Attribute) and c.func.attr == "_pack" and f0 is not hs and eqc:
+                ctx.check(argsig(c) == argsig(eqc[0]), "R12.2", f"{qualname_of(f0).replace('flow.record.base.', '')}:_pack{argsig(c)}",
+                          f"`{norm(c)}` on the hash path packs a (nested) record with other arguments than __eq__ uses {argsig(eqc[0])}: ignored fields of nested records count for the "
+                          "hash but not for equality - equal records get different hashes", c, "same projection as __eq__", key="R12.2:hash-path:other-projection")
     ctx.check(len(hc) >= 1, "R12.2", "Record.__hash__:projection",
               "__hash__ is not computed from self._pack(...): equal records (by packed value) need not have equal hashes, and field "
               "values that define __eq__ without __hash__ make hash() raise", hs, "hash derives from self._pack(...)",
